@@ -28,6 +28,7 @@ META = dict(
 
 MSG_UNIMPLEMENTED = 3
 PAYLOAD_KINDS = ("empty", "random", "valid")
+PAYLOAD_SIZES = (0, 1, 255, 4096, 32768, 34999, 35000, 35001, 40000, 65536, 102400, 262144)
 
 
 def shards(tier):
@@ -48,6 +49,37 @@ def handled_now(v):
     if len(v._expected_packet) > 0:
         h |= set(range(30, 42)) | set(v._expected_packet)
     return h
+
+
+def reference_unhandled(vrole, auth_handler_present):
+    """Independent role/state specification of what a transport handles (RFC 4253/4252/4254 roles; triaged
+    against the unchanged tree): both roles act on 1,2,4 (special-cased), EXT_INFO 7, KEXINIT 20, NEWKEYS 21 and the
+    connection-layer types 80-82, 90-100; only a server acts on SERVICE_REQUEST 5, USERAUTH_REQUEST 50 and
+    INFO_RESPONSE 61; only a client that has started authenticating acts on SERVICE_ACCEPT 6, USERAUTH_FAILURE/
+    SUCCESS/BANNER 51-53 and PK_OK/INFO_REQUEST 60.  Everything else is unhandled in that role and state.  The
+    victim's live tables are *not* the reference: a tree whose tables hand a role the other role's handlers would
+    otherwise define its own defect away."""
+    common = {1, 2, 4, 7, 20, 21, 80, 81, 82, 90, 91, 92} | set(range(93, 101))
+    if not auth_handler_present:
+        mine = set()
+    elif vrole == "server":
+        mine = {5, 50, 61}
+    else:
+        mine = {6, 51, 52, 53, 60}
+    return set(range(256)) - common - mine
+
+
+def judged_unhandled(ctx, v, vrole, ptype):
+    """True when the type must be treated as unhandled: by the live tables, or by the reference although the live
+    tables claim a handler (counted)."""
+    live = ptype not in handled_now(v)
+    ref = ptype in reference_unhandled(vrole, v.auth_handler is not None)
+    if ref and not live and len(v._expected_packet) == 0:
+        ctx.count("live_tables_claim_a_handler_the_role_should_not_have")
+        return True
+    if live and not ref:
+        ctx.count("live_tables_lack_a_handler_of_the_reference")
+    return live
 
 
 def s(x):
@@ -131,7 +163,7 @@ def sender_seq(rec, ev_n, strict):
 class Session:
     """One attacker<->victim connection, reused until the victim dies."""
 
-    def __init__(self, ctx, role, family=None, strict=True):
+    def __init__(self, ctx, role, family=None, strict=True, auth=True):
         self.role = role
         self.cell = None
         kw = {}
@@ -142,7 +174,7 @@ class Session:
             kw = dict(disabled_algorithms=dict(ciphers=[c for c in paramiko.Transport._preferred_ciphers if c not in allowed]),
                       strict_kex=strict)
         self.att = attacker.Attacker(role, rng=ctx.rng, victim_kw=dict(kw), attacker_kw=dict(kw))
-        ok = self.att.start(auth=True, timeout=60)
+        ok = self.att.start(auth=auth, timeout=60)
         self.ok = ok
         if ok:
             self.att.takeover()
@@ -206,7 +238,10 @@ def run_case(ctx, sess, ptype, kind, payload, named):
     ctx.count("victim_inbound_seen", len(vin))
     if not vin:
         errs = [e for e in att.rec.snapshot() if e.get("kind") == "readerr" and e["side"] == "v" and e["n"] >= mark]
-        if errs:
+        if errs and len(payload) > 32768:
+            # RFC 4253 6.1 only obliges implementations to take 32768-byte payloads / 35000-byte packets
+            ctx.count("oversize_packet_refused_by_packet_layer_not_judged")
+        elif errs:
             ctx.violation("victim packet layer rejected a legal packet of unknown type (%s)" % errs[0]["exc"],
                           "the victim could not read the packet carrying the unknown type; session ended",
                           dict(case=desc, readerr=errs[0]))
@@ -560,7 +595,7 @@ def rekey_now(sess, times=1):
     return v.is_active() and not v.in_kex
 
 
-def run_type_sweep(ctx, label, role, types, setup=None, after_rekey=False, family=None):
+def run_type_sweep(ctx, label, role, types, setup=None, after_rekey=False, family=None, auth=True, sizes=None):
     """One session per (label, role); every given type that is unhandled gets one case."""
     import paramiko.common as pc
 
@@ -575,7 +610,7 @@ def run_type_sweep(ctx, label, role, types, setup=None, after_rekey=False, famil
                 sess.close()
             sess = None
             for attempt in range(3):
-                cand = Session(ctx, role, family=family)
+                cand = Session(ctx, role, family=family, auth=auth)
                 if cand.ok:
                     sess = cand
                     break
@@ -598,10 +633,18 @@ def run_type_sweep(ctx, label, role, types, setup=None, after_rekey=False, famil
         if v.in_kex or len(v._expected_packet) > 0:
             ctx.inconclusive("%s: victim unexpectedly inside a key exchange" % label)
             break
-        if ptype in handled_now(v):
+        size = None
+        if isinstance(ptype, tuple):
+            ptype, size = ptype
+        if not judged_unhandled(ctx, v, "server" if role == "client" else "client", ptype):
             continue
-        kind = ctx.rng.choice(PAYLOAD_KINDS)
-        payload = make_payload(ctx.rng, ptype, kind, False)
+        if size is not None:
+            kind = "size:%d" % size
+            payload = ctx.rng.randbytes(size)
+            ctx.count("payload_size_%d_cases" % size)
+        else:
+            kind = ctx.rng.choice(PAYLOAD_KINDS)
+            payload = make_payload(ctx.rng, ptype, kind, False)
         ctx.case(("c12-sweep", label, role, ptype, kind, payload),
                  sample=dict(stratum=label, victim_role="server" if role == "client" else "client", type=ptype,
                              payload_kind=kind) if done == 0 and role == "client" else None)
@@ -627,6 +670,23 @@ def run_debug_and_kexrange(ctx):
             jobs.append(("debugcfg_" + cfg, role, types, cfg, False))
         for phase in ("before", "after"):
             jobs.append(("kexrange_%s_rekey" % phase, role, list(range(30, 50)), None, phase == "after"))
+    extra = []
+    for role in ("client", "server"):
+        vrole = "server" if role == "client" else "client"
+        # type x recipient role x auth state, types 1..100 (both states; unauthenticated = key exchange done, no
+        # authentication started/finished)
+        for authed in (True, False):
+            extra.append(("rolematrix_%s_%s" % (vrole, "authed" if authed else "unauth"), role, list(range(1, 101)), authed))
+        # payload size as a dimension (everything the packet layer accepts)
+        sized = []
+        for size in PAYLOAD_SIZES:
+            for t in ctx.rng.sample([0, 6 if vrole == "server" else 5, 8, 30, 49, 62, 89, 101, 192, 255], ctx.pick(2, 4)) + [3]:
+                sized.append((t, size))
+        extra.append(("payloadsize_%s" % vrole, role, sized, True))
+    for k, (label, role, types, authed) in enumerate(extra):
+        if not ctx.mine(k + 3):
+            continue
+        run_type_sweep(ctx, label, role, types, auth=authed)
     for j, (label, role, types, cfg, after) in enumerate(jobs):
         # big sweeps are split over shards by type, small ones go to one shard each
         if len(types) > 50:
@@ -711,7 +771,7 @@ def run(ctx):
                 break
             sessions[role] = sess
         v = sess.att.victim
-        if ptype in handled_now(v):
+        if not judged_unhandled(ctx, v, "server" if role == "client" else "client", ptype):
             ctx.count("types_with_handler_skipped")
             continue
         payload = make_payload(rng, ptype, kind, big)
@@ -741,6 +801,12 @@ def run(ctx):
     for ph in ("before", "after"):
         ctx.require("cell_kexrange_%s_rekey_seq_compared" % ph, 36)
     ctx.require("kexrange_after_rekey_rekeys_completed", 2)
+    for cell in ("server_authed", "server_unauth", "client_authed", "client_unauth"):
+        ctx.require("cell_rolematrix_%s_seq_compared" % cell, 55)
+    for vr in ("server", "client"):
+        ctx.require("cell_payloadsize_%s_seq_compared" % vr, 20)
+    for size in PAYLOAD_SIZES:
+        ctx.require("payload_size_%d_cases" % size, 4)
     for fam in ("ctr", "cbc", "gcm"):
         for st in ("strict", "nonstrict"):
             for ph in ("before", "after"):
